@@ -304,8 +304,18 @@ def run(rep, tier):
                         consumed = True
             if not consumed:
                 continue
-            if not any(e.kind == "call" and kind(e.node) == "MethodCall" and e.node["m"] in ("drain", "truncate", "split_off", "clear")
-                       and vec_field(e.node["recv"]) in popped_fields for e in ev):
+            def adjusts(e):
+                if e.kind != "call":
+                    return False
+                if kind(e.node) == "MethodCall" and e.node["m"] in ("drain", "truncate", "split_off", "clear") \
+                        and vec_field(e.node["recv"]) in popped_fields:
+                    return True
+                # `discard(&mut self.popped, ..)`: the vector handed to a helper by mutable reference
+                for a in hirq.call_args(e.node):
+                    if kind(a) == "AddrOf" and a.get("mut") and vec_field(a["e"]) in popped_fields:
+                        return True
+                return False
+            if not any(adjusts(e) for e in ev):
                 r5.violation("clear:adjust", where(cs["body"]), "a path of clear_snapshot consumes a snapshot entry without "
                              "adjusting the popped vector: what the cleared snapshot recorded stays behind and is replayed "
                              "by an ancestor's restore")
